@@ -241,7 +241,7 @@ func (snm *shardNotificationsManager) getNotifications() error {
 	}
 
 	var startOffsetExclusive *int64
-	if snm.lastOffsetReceived >= 0 {
+	if snm.initialized {
 		startOffsetExclusive = &snm.lastOffsetReceived
 	}
 
